@@ -1,4 +1,5 @@
 import WindVerif.Proofs.LineFile
+import WindVerif.Proofs.LineFileSeq
 /-!
 # C11 — Line files: indexing, slicing and iteration return exactly the file's lines
 
@@ -90,5 +91,106 @@ theorem good_of_same (f f' : LF) (ls : List Str) (h : Good f ls) (hs : SameButCu
 /-- non-vacuity: multi-byte content, an empty line, no final newline -/
 example : refLines "é\n\nz".toList = ["é".toList, [], "z".toList] ∧ lineAt "é\n\nz".toList 3 = some [] ∧
     lineAt "é\n\nz".toList 1 = none := by decide
+
+/-!
+## The inherited `collections.abc.Sequence` interface: `index`, `count`, `in`, `reversed`
+
+Model `Model/LineFileSeq.lean` (the mixin methods as `_collections_abc.py` writes them, over `f[i]` and the overridden
+`__iter__`), proofs `Proofs/LineFileSeq.lean`, reference `Core/PyListSeq.lean` (`Py.pyListIndex` = `list.index`).
+-/
+
+/-- what `list.index(v, start, stop)` returns: the first position in `[start', min(stop', len))` that holds `v`, where a
+negative bound counts from the end and is clamped to 0 (`Py.idxLo` / `Py.idxHi`) -/
+theorem pyListIndex_eq_some_iff {α} [DecidableEq α] (l : List α) (v : α) (start stop : Option Int) (k : Nat) :
+    Py.pyListIndex l v start stop = some k ↔
+      Py.idxLo l.length start ≤ k ∧ k < Py.idxHi l.length stop ∧ l[k]? = some v ∧
+      ∀ j, Py.idxLo l.length start ≤ j → j < k → l[j]? ≠ some v := by
+  first | exact WindVerif.Py.pyListIndex_eq_some_iff .. | (apply WindVerif.Py.pyListIndex_eq_some_iff <;> assumption)
+
+/-- … and when it raises `ValueError` -/
+theorem pyListIndex_eq_none_iff {α} [DecidableEq α] (l : List α) (v : α) (start stop : Option Int) :
+    Py.pyListIndex l v start stop = none ↔
+      ∀ j, Py.idxLo l.length start ≤ j → j < Py.idxHi l.length stop → l[j]? ≠ some v := by
+  first | exact WindVerif.Py.pyListIndex_eq_none_iff .. | (apply WindVerif.Py.pyListIndex_eq_none_iff <;> assumption)
+
+/-- `f.index(v, start, stop)` on an opened file is `ls.index(v, start, stop)` of the presented list — the same position,
+and `ValueError` exactly when the list raises it — for every `start` / `stop`, negative and out of range included -/
+theorem lfIndex_spec (f : LF) (ls : List Str) (h : Good f ls) (hc : f.closed = false) (v : Str)
+    (start stop : Option Int) :
+    match Py.pyListIndex ls v start stop with
+    | some k => ∃ f', lfIndex f v start stop = .ok (f', k) ∧ SameButCursor f f'
+    | none => lfIndex f v start stop = .error .valueError := by
+  first | exact WindVerif.LineFile.lfIndex_spec .. | (apply WindVerif.LineFile.lfIndex_spec <;> assumption)
+
+/-- on a closed file `index` raises `RuntimeError` as soon as it reads an item — not when the normalised bounds are
+empty (`stop` given and `start' ≥ stop'`): then the loop is not entered and it is `ValueError` -/
+theorem lfIndex_closed (f : LF) (hc : f.closed = true) (v : Str) (start stop : Option Int) :
+    lfIndex f v start stop =
+      if seqBelow (seqStop f.lines.length stop) (seqStart f.lines.length start) then .error .runtimeError
+      else .error .valueError := by
+  first | exact WindVerif.LineFile.lfIndex_closed .. | (apply WindVerif.LineFile.lfIndex_closed <;> assumption)
+
+/-- the fuel of the `index` loop suffices on every file -/
+theorem lfIndexGo_fuel (v : Str) (stop : Option Int) (fuel : Nat) (f : LF) (p : Nat) (h : f.lines.length - p < fuel) :
+    lfIndexGo f v stop fuel p = lfIndexGo f v stop (f.lines.length - p + 1) p := by
+  first | exact WindVerif.LineFile.lfIndexGo_fuel .. | (apply WindVerif.LineFile.lfIndexGo_fuel <;> assumption)
+
+/-- `f.count(v)` on an opened file: `ls.count(v)` -/
+theorem lfCount_spec (f : LF) (ls : List Str) (h : Good f ls) (hc : f.closed = false) (v : Str) :
+    ∃ f', lfCount f v = .ok (f', ls.count v) ∧ SameButCursor f f' := by
+  first | exact WindVerif.LineFile.lfCount_spec .. | (apply WindVerif.LineFile.lfCount_spec <;> assumption)
+
+theorem lfCount_closed (f : LF) (hc : f.closed = true) (v : Str) : lfCount f v = .error .runtimeError := by
+  first | exact WindVerif.LineFile.lfCount_closed .. | (apply WindVerif.LineFile.lfCount_closed <;> assumption)
+
+/-- `v in f` on an opened file: `v in ls` -/
+theorem lfContains_iff (f : LF) (ls : List Str) (h : Good f ls) (hc : f.closed = false) (v : Str) :
+    ∃ f' b, lfContains f v = .ok (f', b) ∧ (b = true ↔ v ∈ ls) ∧ SameButCursor f f' := by
+  first | exact WindVerif.LineFile.lfContains_iff .. | (apply WindVerif.LineFile.lfContains_iff <;> assumption)
+
+theorem lfContains_closed (f : LF) (hc : f.closed = true) (v : Str) : lfContains f v = .error .runtimeError := by
+  first | exact WindVerif.LineFile.lfContains_closed .. | (apply WindVerif.LineFile.lfContains_closed <;> assumption)
+
+/-- `list(reversed(f))` on an opened file: the presented list reversed -/
+theorem lfReversed_spec (f : LF) (ls : List Str) (h : Good f ls) (hc : f.closed = false) :
+    ∃ f', lfReversed f = .ok (f', ls.reverse) ∧ SameButCursor f f' := by
+  first | exact WindVerif.LineFile.lfReversed_spec .. | (apply WindVerif.LineFile.lfReversed_spec <;> assumption)
+
+/-- on a closed file `reversed` raises `RuntimeError` at its first item; without lines there is no first item:
+`list(reversed(f)) == []` -/
+theorem lfReversed_closed (f : LF) (hc : f.closed = true) :
+    (f.lines ≠ [] → lfReversed f = .error .runtimeError) ∧ (f.lines = [] → lfReversed f = .ok (f, [])) := by
+  first | exact WindVerif.LineFile.lfReversed_closed .. | (apply WindVerif.LineFile.lfReversed_closed <;> assumption)
+
+/-- non-vacuity: the hypotheses on a concrete opened file (three lines, a duplicate, multi-byte content) … -/
+example : Good (LF.new "é
+b
+é
+".toList (some [0, 3, 5])).open ["é".toList, "b".toList, "é".toList] ∧
+    (LF.new "é
+b
+é
+".toList (some [0, 3, 5])).open.closed = false :=
+  ⟨(WindVerif.LineFile.open_good _ _ (WindVerif.LineFile.new_custom_good _ _ _ (by decide))).1, rfl⟩
+
+/-- … and what the inherited methods compute on it: `index` with a negative start, an empty range, an absent value;
+`count`, `in`, `reversed`; and the closed file (`RuntimeError`, but `ValueError` for empty bounds) -/
+example :
+    let f := (LF.new "é
+b
+é
+".toList (some [0, 3, 5])).open
+    (lfIndex f "é".toList none none).toOption.map (·.2) = some 0 ∧
+    (lfIndex f "é".toList (some (-2)) none).toOption.map (·.2) = some 2 ∧
+    (lfIndex f "é".toList (some 1) (some (-1))).toOption.map (·.2) = none ∧
+    Py.pyListIndex ["é".toList, "b".toList, "é".toList] "é".toList (some (-2)) none = some 2 ∧
+    Py.pyListIndex ["é".toList, "b".toList, "é".toList] "é".toList (some 1) (some (-1)) = none ∧
+    (lfCount f "é".toList).toOption.map (·.2) = some 2 ∧
+    (lfContains f "b".toList).toOption.map (·.2) = some true ∧
+    (lfContains f "x".toList).toOption.map (·.2) = some false ∧
+    (lfReversed f).toOption.map (·.2) = some ["é".toList, "b".toList, "é".toList] ∧
+    (match lfIndex f.close "é".toList none none with | .error .runtimeError => true | _ => false) = true ∧
+    (match lfIndex f.close "é".toList (some 2) (some 1) with | .error .valueError => true | _ => false) = true := by
+  decide
 
 end WindVerif.C11
